@@ -102,6 +102,21 @@ CHECKS = {
         note="Trusted: TLC, the process runners, the criterion for a located diagnostic (stderr names a source module by URL). The class space is small and the model simple; the weight of this check is in the observations of the real binaries.",
         technique="TLA+ model of the front-end outcomes with a hidden source class (TLC) + trace validation of observed oal-cli / playground / oal-lsp runs with class inference",
     ),
+    "C15": dict(
+        design_ref="DESIGN.md 3.8, 4 (C15)",
+        text="TLC model-checks Lsp.tla (document store with disk caching, staleness flag, pending errors, published diagnostics; "
+             "DidOpen/DidChange/DidClose and Refresh split into Evaluate and Publish as in the code) over every history of up to 5 "
+             "(quick) / 7 (thorough) events on a 4-document workspace with syntax, compile and evaluation defects and import cycles: "
+             "NoDrift, HistoryIndependent, StaleCleared; a second configuration keeps the pinned publish rule, in which TLC itself finds "
+             "the stale-diagnostic history. Histories printed by TLC (one per abstract state at the bound) are replayed on the real "
+             "oal-lsp with concrete multi-byte/CRLF sources and random incremental UTF-16 edits; after every refresh the published "
+             "diagnostics are compared with the specification's and at the end with those of a fresh real server handed the final "
+             "texts, as are definition/references/prepareRename answers; long random histories get the same fresh-server oracle; the "
+             "server-side text is compared with the client's after every notification in process (hook H4). P2UMonotone/EditAgrees in "
+             "Unicode.tla cover the conversion of edit ranges.",
+        note="Trusted: TLC, the JSON-RPC client, the realisation of abstract texts, the Python model of client-side edit application. Domain: protocol-conforming notifications; files on disk unchanged during a history.",
+        technique="TLA+ state machine of the language server (TLC, all histories up to 5/7 events) + replay of TLC-generated histories on the real oal-lsp with a fresh-server oracle + in-process text-drift check",
+    ),
 }
 
 PENDING_REASON = "check not built yet (work in progress; see DESIGN.md section 8 for the build order)"
